@@ -32,16 +32,16 @@ Definition ix : ifile :=
   mk_ifile [mk_ipack 100 [b_root] (Some 107) false; mk_ipack 101 [b_sub] (Some 117) false;
             mk_ipack 102 [b_d4; b_d3] None false] [].
 
-Definition st_clean : state N := mk_state true [pk100 1; pk101; pk102 true] [ix] [1].
-Definition st_blob_damaged : state N := mk_state true [pk100 1; pk101; pk102 false] [ix] [1].
+Definition st_clean : state N := mk_state true true [pk100 1; pk101; pk102 true] [ix] [1].
+Definition st_blob_damaged : state N := mk_state true true [pk100 1; pk101; pk102 false] [ix] [1].
 (* the root-only pack now holds (authentic) tree 5 at the place the index gives for tree 1 *)
-Definition st_root_replaced : state N := mk_state true [pk100 5; pk101; pk102 true] [ix] [1].
+Definition st_root_replaced : state N := mk_state true true [pk100 5; pk101; pk102 true] [ix] [1].
 (* chunk 3 is stored twice (packs 102 and 103); the copy in 103 does not decrypt *)
 Definition pk103 : spack N :=
   mk_spack 103 123 103 69 [mk_seg 50 69 (PHeader [b_d3])].
 Definition ix_dup : ifile :=
   mk_ifile (if_packs ix ++ [mk_ipack 103 [b_d3] (Some 123) false]) [].
-Definition st_dup : state N := mk_state true [pk100 1; pk101; pk102 true; pk103] [ix_dup] [1].
+Definition st_dup : state N := mk_state true true [pk100 1; pk101; pk102 true; pk103] [ix_dup] [1].
 Definition sel_last (t : btype) (i : id) : option (id * iblob) :=
   match rev (candidates N st_dup t i) with [] => None | e :: _ => Some (snd (fst e), snd e) end.
 
